@@ -159,6 +159,8 @@ def run(ctx):
     mc, ff = (5, 3) if ctx.tier == "thorough" else (4, 3)
     slicecheck.write_cfg(ctx, "FoMatchCases_run.cfg",
                          "CONSTANTS\n  MaxCases = %d\n  FullForms = %d\n  OutFile = \"match_cases.ndjson\"\nINIT Init\nNEXT Next\n" % (mc, ff))
+    # unbounded: the marking loop accepts exactly the matches with a default arm or covering arms, for every union and arm sequence (TLA+ proof system)
+    ctx.extra["tlaps_obligations_proved_FoMatchProof"] = ctx.tlapm("FoMatchProof")
     ctx.tlc("FoMatchCases", "FoMatchCases_run.cfg", workers=1, timeout=3000, heap_gb=8)
     cfgs = core.read_ndjson(os.path.join(ctx.spec_dir(), "match_cases.ndjson"))
     items = []
